@@ -77,8 +77,15 @@ func (n *node) inlinedNow() bool {
 }
 
 // sameBytesClean: request kinds (by relation of the stored slab to the container the request went
-// through) for which the unchanged tree never stores a slab with the bytes it already had.
-var sameBytesClean = map[string]bool{}
+// through) for which the unchanged tree never stores a slab with the bytes it already had (60 seeds):
+// an insertion into / a removal from an array changes the count or size in every slab on the path and
+// in every sibling it merges or rebalances with.  Everything else has legitimate exceptions on the
+// unchanged tree, which are counted: an index slab is stored by every Set below it although its headers
+// are unchanged; a container whose changed element lives in an external collision group or in a
+// referenced slab is re-set in its parent although its own bytes are unchanged; requests that are
+// identities (a type set to itself, a value overwritten by an equal-sized... same value, PopIterate of an
+// empty container) store what was there.
+var sameBytesClean = map[string]bool{"ains:own": true, "arem:own": true}
 
 // closeStores applies the two oracles to the request whose effects were just emitted.
 func (e *nestEnv) closeStores(effs []hx.Eff) {
@@ -143,7 +150,7 @@ func (e *nestEnv) closeStores(effs []hx.Eff) {
 			tag = "no-request:" + rel
 		}
 		e.st.Hit("observation:same-bytes-store:" + tag)
-		if sameBytesClean[tag] && !e.sameBytesReported {
+		if sameBytesClean[kind+":"+rel] && !e.sameBytesReported {
 			e.sameBytesReported = true
 			e.violations([]string{"C10", "C09"}, fmt.Sprintf("request %q stored slab %s (%s) with exactly the content its previous store held (store set: %s): superfluous write", kind, hx.IDStr(id), rel, hx.NetEffect(effs)))
 		}
